@@ -80,7 +80,36 @@ def gen_histories(ctx):
     want = sum(n for _, _, n in plan)
     if len(scripts) < want // 2:
         raise vlib.Inconclusive("history generation produced only %d of %d scripts" % (len(scripts), want))
+    scripts.extend(directed_expiry(scripts))
     return scripts
+
+
+BLANK = {"op": "Get", "k": [], "data": [], "m": {"cr": 0, "exp": 0, "del": False, "rel": 0, "sec": False, "cj": False},
+         "form": "", "pfx": [], "cond": {"op": "", "k": "and", "key": [], "val": {"b": False, "t": "none", "i": 0, "s": [], "l": []}, "sub": []},
+         "x": 0, "batch": []}
+
+
+def directed_expiry(scripts):
+    """Directed timed history (both tiers): maintenance and reads in exactly the second in which a record expires - the record
+    is still valid in that second ("expires < now") - and in the second after it."""
+    tpl = next((st for sc in scripts for st in sc["steps"] if st["op"] == "Put" and st.get("data")), None)
+    if tpl is None:
+        return []
+    # expiry values of a script are offsets from the time of the call (0: none)
+    KAB, KAD, KAB2 = [1, 5, 2], [1, 5, 4], [1, 2]
+    M = lambda exp: dict(BLANK["m"], exp=exp)
+    op = lambda name, **kw: dict(BLANK, op=name, **kw)
+    put = lambda k, exp: dict(tpl, op="Put", k=k, m=M(exp))
+    reads = [op("Get", k=KAB), op("Get", k=KAD), op("Get", k=KAB2), op("Query"), op("Exists", k=KAB)]
+    out = []
+    for maint in ("MaintainRecordStates", "Maintain", "MaintainThorough"):
+        steps = [op("Tick", x=1), put(KAB, 2), put(KAD, 0), put(KAB2, -10), op("Tick", x=2)] + reads + [op(maint)] + reads + \
+                [op("Tick", x=1)] + reads + [op(maint)] + reads + [op("Purge")] + reads
+        cfgs = [dict(c, cs=64 if c["c"] != "none" else 0) for c in configs(["hashmap", "bbolt"], ["none", "read"])] + \
+               [dict(c, cs=0) for c in configs(["fstree", "badger"], ["none"])]
+        out.append({"keys": [KAB, KAD, KAB2], "fs": True, "timed": True, "opt": {"k": "none", "x": 0}, "steps": steps,
+                    "directed": "expiry", "swept": True, "cfgs": cfgs})
+    return out
 
 
 def assign_configs(ctx, scripts):
@@ -92,6 +121,8 @@ def assign_configs(ctx, scripts):
     timed_all = configs(["hashmap", "bbolt", "fstree", "badger"], ["none", "read"])
     nt = 0
     for i, s in enumerate(scripts):
+        if s.get("directed"):
+            continue       # configurations and steps are fixed
         if s["timed"]:
             # clock ticks take real seconds: four configurations per history, rotating
             pool = [c for c in timed_all if s["fs"] or c["b"] != "fstree"]
